@@ -3,7 +3,9 @@
 from __future__ import annotations
 
 import ast
+import re
 
+from ..alpha import Loc, facts
 from ..const import UNKNOWN, Folder
 from ..flow import Slicer, dotted_reads, flat_guards, parent_map
 from ..model import FuncInfo, Model, dotted, norm, walk_no_nested
@@ -120,20 +122,21 @@ def check(model: Model, run: Run) -> None:
     run.analysed(un)
     run.analysed(pp)
     popped = set()
+    ppl = Loc(model, pp)
+    got = set(ppl.from_call('AttributeCollection.unpack'))
     for c in walk_no_nested(pp.node):
-        if isinstance(c, ast.Call) and isinstance(c.func, ast.Attribute) and c.func.attr in ('pop', 'remove', '__delitem__') and dotted(c.func.value) == 'attributes' and c.args:
+        if isinstance(c, ast.Call) and isinstance(c.func, ast.Attribute) and c.func.attr in ('pop', 'remove', '__delitem__') and dotted(c.func.value) in got and c.args:
             v = folder.fold(c.args[0], pp.module)
             popped.add(v if v is not UNKNOWN else norm(c.args[0]))
     store = [n for n in walk_no_nested(un.node) if isinstance(n, ast.Assign) and dotted(n.targets[0]) == 'cls.cached' and not (isinstance(n.value, ast.Constant) and n.value.value is None)]
     excluded = set()
     if store:
-        for t, pol in flat_guards(un.node, store[0]):
-            if isinstance(t, ast.Compare) and isinstance(t.ops[0], ast.NotIn) and pol:
-                v = folder.fold(t.left, un.module, un.cls)
-                excluded.add(v if v is not UNKNOWN else norm(t.left))
-            if isinstance(t, ast.Compare) and isinstance(t.ops[0], ast.In) and not pol:
-                v = folder.fold(t.left, un.module, un.cls)
-                excluded.add(v if v is not UNKNOWN else norm(t.left))
+        for f_ in facts(Loc(model, un), store[0]):
+            m_ = re.fullmatch(r'([\w.]+) not in .+', f_)
+            if m_:
+                e_ = ast.parse(m_.group(1), mode='eval').body
+                v = folder.fold(e_, un.module, un.cls)
+                excluded.add(v if v is not UNKNOWN else m_.group(1))
     missing = popped - excluded
     run.check(bool(store) and bool(popped) and not missing, un.qualname, 'caching guard excludes %s; consumers pop %s' % (sorted(map(str, excluded)), sorted(map(str, popped))), un.loc(store[0]) if store else un.loc(), 'attribute code(s) %s are popped from the returned collection by _parse_payload but a collection holding them can be cached: the first decode strips the shared object and the next identical block loses those routes' % sorted(map(str, missing)))
     # also: the marker short-cut returns before caching
@@ -165,7 +168,7 @@ def check(model: Model, run: Run) -> None:
             if readers:
                 run.violation(
                     fi.qualname,
-                    'class attribute rewritten while decoding: %s' % norm(node)[:60],
+                    'class attribute %s rewritten while decoding' % attr,
                     fi.loc(node),
                     '%s is registered under several codes and reads %s in its renderers: a peer OPEN carrying the other code flips the '
                     'class attribute process-wide, so capabilities decoded earlier (other sessions included) render differently afterwards' % (', '.join(short(r) for r in readers), attr),
